@@ -175,7 +175,6 @@ theorem parseBody_result {ri : Reader Int} {ver : Version} {info : ServerInfo} {
       parseClients ri ver (bs'.length + 1) offset bs' [] (if ver = .v6Ex then 1 <<< packetNo else 0) = .ok (some (cs, r)) ∧
       p = { info := { info with clients := cs }, received := r } := by
   unfold parseBody at h
-  simp only at h
   split at h
   · simp at h
   · rename_i bs' _
